@@ -349,3 +349,11 @@ CONTRACTS = CONTRACTS + [RetryFactory()]
 
 def extra_contracts():
     return mimic_variants("C14")
+
+
+class RetryShape(DecoratorShape):
+    file, func, name = "helpers/retries.py", "retry", "C14/retries:retry(decorator-shape)"
+    props = ("C14",)
+
+
+CONTRACTS = CONTRACTS + [RetryShape()]
